@@ -277,6 +277,22 @@ impl ObjectSet {
         &mut self,
         tlds: &BTreeMap<String, ToplevelDefinition>,
     ) -> Result<(), GrammarError> {
+        self.resolve_object_set_references_to_depth(tlds, 0)
+    }
+
+    /// Each round replaces references to object sets by their members. Without a cycle among the
+    /// sets there are at most as many rounds as there are definitions.
+    fn resolve_object_set_references_to_depth(
+        &mut self,
+        tlds: &BTreeMap<String, ToplevelDefinition>,
+        depth: usize,
+    ) -> Result<(), GrammarError> {
+        if depth > tlds.len() {
+            return Err(GrammarError::new(
+                "Object set is defined in terms of object sets that are defined in terms of each other.",
+                GrammarErrorType::LinkerError,
+            ));
+        }
         let mut flattened_members = Vec::new();
         let mut needs_recursing = false;
         'resolving_references: for mut value in std::mem::take(&mut self.values) {
@@ -308,7 +324,7 @@ impl ObjectSet {
         }
         self.values = flattened_members;
         if needs_recursing {
-            self.resolve_object_set_references(tlds)
+            self.resolve_object_set_references_to_depth(tlds, depth + 1)
         } else {
             Ok(())
         }
